@@ -15,7 +15,7 @@
      This IS what serde_json does when built with float_roundtrip (the build in /repo since the
      repair of F17); tied by the XNUM / XPARSE streams. *)
 From Coq Require Import String Ascii List ZArith Bool Floats.SpecFloat.
-Require Import Blots.Num Blots.NumText Blots.Json Blots.JsonText.
+Require Import Blots.Num Blots.Outcome Blots.NumText Blots.Json Blots.JsonText Blots.JsonWf.
 Import ListNotations.
 Open Scope Z_scope.
 
@@ -111,3 +111,19 @@ Definition c06_xrt_line (d : json) : string :=
      | None => "ERR"
      end
   ++ " " ++ show_json (sj_build d).
+
+(* XECHO: the echo program text to text, compared byte for byte with the real binary.  The printer
+   is the executable reference of ryu's shortest digits that C16 maintains (NumText.ref_ryu: Dragon4
+   over Z with ryu's tie rule and layout; compared with the real serde_json text by C16's NUMTEXT
+   stream and, through this stream, by C06), re-scanned into a token.  Nothing is proved about it. *)
+Definition ryu_pieces (x : num) : numtok :=
+  match scan_number (ref_ryu x) with
+  | Some (t, _) => t
+  | None => NumTok false [] None None
+  end.
+Definition c06_xecho_line (input key name : string) : string :=
+  match cli_text_echo no_fn no_body no_emit no_name ryu_pieces rn_float_of_tok input key name with
+  | Ok t => "OK:" ++ hex_of_string t
+  | Err => "ERR"
+  | _ => "OTHER"
+  end.
